@@ -52,6 +52,10 @@ func init() { register("C10", runC10) }
 //	Rw:<cred>:<name>:<probe>  INSIDE the write transaction (SQLite commit hook: statement done, COMMIT pending).  result
 //	                  "<c|r>:..+<role>,<ok|no>" ("+-" when no write transaction was committed or <probe> is the revoked
 //	                  value itself): the answer is the one <probe> gets alone
+//	CC<k>:<name>      k concurrent creates (spin-gated): all values pairwise distinct and new, each authenticates, revoking one
+//	                  leaves the others valid; <name> is bound to the last one.  Checks the model's ASSUMPTION of distinctness.
+//	XF:<name>         restart; the first token lookup of the new process (an authenticate of <name>) meets an unavailable
+//	                  tokens table; result "xf:<A|N>" (fail closed); later lookups work again (the vector)
 //	XA:<value>        reconfiguration: restart on the same database with another admin token (percent-encoded); "adm" is the
 //	                  new one from here on, "oadm" the previous one - which is nothing any more
 //	AGE:<name>:<d>    the row of the token gets created_at = now - 2h | 25h | 400d, or now + f1h | f5m: age is no criterion
@@ -594,6 +598,104 @@ func (st *c10State) op(o string, dir string) string {
 			}
 		}
 		return "ovl:" + heldRes + ":" + probeRes
+	case (strings.HasPrefix(p[0], "CC") || strings.HasPrefix(p[0], "CS")) && len(p) == 2:
+		// CS<k>: the same through TokenService.GenerateToken, the call the endpoint makes (tighter overlap)
+		direct := strings.HasPrefix(p[0], "CS")
+		// k creates issued CONCURRENTLY (spin-gated): the model ASSUMES that issued tokens are pairwise distinct - this op
+		// checks the assumption on the implementation: all k values distinct (and new), each authenticates, revoking
+		// one leaves the others valid.  The last value is bound to <name>.
+		k := 0
+		fmt.Sscanf(p[0][2:], "%d", &k)
+		if k < 2 || k > 64 {
+			return "BAD-OP"
+		}
+		gate := make(chan struct{})
+		type cr struct {
+			code int
+			tok  string
+		}
+		out := make(chan cr, k)
+		for i := 0; i < k; i++ {
+			go func() {
+				<-gate
+				if direct {
+					defer func() {
+						if r := recover(); r != nil {
+							out <- cr{-1, ""}
+						}
+					}()
+					t, err := st.fs.Services.Tokens.GenerateToken()
+					if err != nil || t == nil {
+						out <- cr{500, ""}
+						return
+					}
+					out <- cr{200, t.Token}
+					return
+				}
+				code, body := st.do("POST", "/api/v1/access", st.admin)
+				var t struct {
+					Token string `json:"token"`
+				}
+				_ = json.Unmarshal([]byte(body), &t)
+				out <- cr{code, t.Token}
+			}()
+		}
+		time.Sleep(time.Millisecond)
+		close(gate)
+		var toks []string
+		dup := 0
+		for i := 0; i < k; i++ {
+			select {
+			case r := <-out:
+				if r.code != 200 || !isAlnum32(r.tok) {
+					return fmt.Sprintf("cc:CREATE-E%d", r.code)
+				}
+				if st.seen[r.tok] || r.tok == st.admin {
+					dup++
+				}
+				st.seen[r.tok] = true
+				toks = append(toks, r.tok)
+			case <-time.After(2 * waitDeadline):
+				return "cc:TIMEOUT"
+			}
+		}
+		if dup > 0 {
+			return fmt.Sprintf("cc:DUP(%d-of-%d)", dup, k)
+		}
+		for _, t := range toks {
+			if st.role(t) != "U" {
+				return "cc:ISSUED-TOKEN-REFUSED"
+			}
+		}
+		if code, _ := st.do("DELETE", "/api/v1/access/"+toks[0], st.admin); code != 200 {
+			return fmt.Sprintf("cc:REVOKE-E%d", code)
+		}
+		if st.role(toks[0]) != "N" {
+			return "cc:REVOKED-TOKEN-ACCEPTED"
+		}
+		for _, t := range toks[1:] {
+			if st.role(t) != "U" {
+				return "cc:OTHERS-AFFECTED"
+			}
+		}
+		st.bind[p[1]] = toks[k-1]
+		return "cc:ok"
+	case p[0] == "XF" && len(p) == 2:
+		// restart, and the FIRST token lookup of the new process meets a failing store (the tokens table is unavailable
+		// for that one request); afterwards the store works again: the first lookup fails closed (only the admin token
+		// gets through) and everything later is answered from the table as usual
+		st.fs.Shutdown()
+		if err := st.open(dir); err != nil {
+			return "x:ERR " + strings.ReplaceAll(err.Error(), "\t", " ")
+		}
+		if _, err := st.fs.DB.Exec(`ALTER TABLE tokens RENAME TO tokens_unavailable`); err != nil {
+			return "xf:HARNESS-ERROR"
+		}
+		r := st.role(st.resolve(p[1]))
+		if _, err := st.fs.DB.Exec(`ALTER TABLE tokens_unavailable RENAME TO tokens`); err != nil {
+			return "xf:HARNESS-ERROR"
+		}
+		return "xf:" + r
 	case p[0] == "XA" && len(p) == 2:
 		// the operator changes http.auth_token and restarts the service on the same database
 		old := st.admin
